@@ -37,10 +37,14 @@ type vReplayer struct {
 	universe []vTag
 	// node role
 	subWait   map[int]int  // model stream -> recvEntered value to wait for at Sub2
-	pendingSub int         // model stream whose subscribe is parked (0 = none)
+	parked     map[int]bool // model streams whose subscribe is parked right before remoteMu.Lock()
+	lockHolder int          // stream whose subscribe holds remoteMu in the spec (between Sub1 and Sub2)
+	evicted    map[string]int // "account|space" -> step at which the account was evicted as a non-member
+	checkedAt  map[int]int    // model stream -> step of its parked subscribe's membership check
 	hookPending map[int]bool
 	laterFrames map[int]int // model stream -> number of frame steps still to come
 	step      int
+	stepNo    int // running number of executed steps (replay: = step; recorder: own counter)
 	// client role
 	frames    map[int]*pubsubproto.Publish // genuine (fresh) frame per model message id
 	genuine   map[string]*pubsubproto.Publish
@@ -95,13 +99,14 @@ func vUniverse(b vBehaviour) []vTag {
 
 func vReplayBehaviour(t *testing.T, rep *vfReport, b vBehaviour, seed int64) {
 	r := &vReplayer{rep: rep, b: b, subWait: map[int]int{}, hookPending: map[int]bool{}, laterFrames: map[int]int{},
+		parked: map[int]bool{}, evicted: map[string]int{}, checkedAt: map[int]int{},
 		frames: map[int]*pubsubproto.Publish{}, handledId: map[int]int{}, genuine: map[string]*pubsubproto.Publish{}, own: map[int]bool{}, idOf: map[string]int{}}
 	x := uint64(seed)*2654435761 + 12345
 	r.rnd = func(n int) int { x = x*6364136223846793005 + 1442695040888963407; return int((x >> 33) % uint64(n)) }
 	r.universe = vUniverse(b)
 	for _, s := range b.Steps {
 		switch s.A.Act {
-		case "SubReject", "Sub1", "Unsub1", "Publish":
+		case "SubReject", "SubCheck", "Unsub1", "Publish":
 			r.laterFrames[s.A.S]++
 		}
 	}
@@ -119,6 +124,7 @@ func vReplayBehaviour(t *testing.T, rep *vfReport, b vBehaviour, seed int64) {
 	defer r.e.finish()
 	for i := range b.Steps {
 		r.step = i
+		r.stepNo = i
 		if b.Cfg.Role == "node" {
 			r.nodeStep(b.Steps[i])
 		} else {
@@ -172,12 +178,13 @@ func (r *vReplayer) nodeStep(s vStep) {
 		fwdBefore = e.rel.forwardCalls.Load()
 	}
 	var pubId []byte
+	holder := r.lockHolder
 	switch a.Act {
 	case "OpenStream":
 		e.openStream(a.S)
 	case "RemoveStream":
 		// a frame still to be handled for this stream needs its read loop: close from the write side
-		byWrite := r.laterFrames[a.S] > 0 || r.pendingSub == a.S || r.rnd(2) == 0
+		byWrite := r.laterFrames[a.S] > 0 || r.parked[a.S] || r.rnd(2) == 0
 		e.removeStream(a.S, byWrite)
 		r.hookPending[a.S] = true
 	case "OnStreamClose":
@@ -185,34 +192,17 @@ func (r *vReplayer) nodeStep(s vStep) {
 		delete(r.hookPending, a.S)
 	case "SubReject":
 		r.deliverFrame(a.S, vSubscribeFrame(a.Sp, e.realPatterns(a.F)))
+	case "SubCheck":
+		// run the real handleSubscribe up to the point right before remoteMu.Lock(): validation and the
+		// membership answer are decided, nothing of the engine state is touched yet
+		r.parkSubscribe(a.S, a.Sp, a.F)
 	case "Sub1":
-		// run the real handleSubscribe up to the point right before remoteMu.Lock()
-		e.mem.arm(a.S)
-		st := e.streams[a.S]
-		r.subWait[a.S] = st.push(vSubscribeFrame(a.Sp, e.realPatterns(a.F)))
-		r.laterFrames[a.S]--
-		select {
-		case got := <-e.mem.atGate:
-			if got != a.S {
-				panic("verif harness: wrong stream at the subscribe gate")
-			}
-			r.pendingSub = a.S
-		case <-time.After(vWatchdog):
-			// the subscribe never asked the membership checker: it was refused (or accepted) on another path
-			e.mem.mu.Lock()
-			e.mem.armed[a.S] = false
-			e.mem.mu.Unlock()
-			r.driftf("subscribe did not reach the membership check")
-			return
-		}
+		// remoteMu.Lock() .. AddTagsCtx is one uninterruptible piece of the real call: it is executed at Sub2;
+		// the steps TLC may schedule in between do not need remoteMu and commute with the recorded interest
+		r.lockHolder = a.S
 	case "Sub2":
-		m := r.pendingSub
-		e.mem.mu.Lock()
-		ch := e.mem.release[m]
-		e.mem.mu.Unlock()
-		close(ch)
-		e.streams[m].waitHandled(r.subWait[m])
-		r.pendingSub = 0
+		r.releaseSubscribe(r.lockHolder)
+		r.lockHolder = 0
 	case "Unsub1":
 		r.deliverFrame(a.S, vUnsubscribeFrame(a.Sp, e.realPatterns(a.P)))
 	case "Unsub2":
@@ -249,6 +239,12 @@ func (r *vReplayer) nodeStep(s vStep) {
 	frames := e.flush(e.allModels())
 	after := e.views(r.universe)
 	exp := s.Exp
+	r.noteEviction(a)
+	released := 0
+	if a.Act == "Sub2" {
+		released = holder
+	}
+	r.checkEvicted(a, released, after)
 
 	// ---- (a) property predicates on the real observations
 	if a.Act == "Publish" {
@@ -370,6 +366,93 @@ func (r *vReplayer) checkWithdrawn(a vAct, before, after vViews) {
 		}
 		if vIn(after.RemoteDom, a.Sp) {
 			r.violate("closed-space-still-registered", fmt.Sprintf("CloseSpace(%s): the space trie is still there", a.Sp))
+		}
+	}
+}
+
+func (r *vReplayer) parkSubscribe(model int, sp string, f []vSegs) bool {
+	e := r.e
+	e.mem.arm(model)
+	st := e.streams[model]
+	r.subWait[model] = st.push(vSubscribeFrame(sp, e.realPatterns(f)))
+	r.laterFrames[model]--
+	select {
+	case got := <-e.mem.atGate:
+		if got != model {
+			panic("verif harness: wrong stream at the subscribe gate")
+		}
+		r.parked[model] = true
+		r.checkedAt[model] = r.stepNo
+		return true
+	case <-time.After(vWatchdog):
+		// the subscribe never asked the membership checker: it was refused (or accepted) on another path
+		e.mem.mu.Lock()
+		e.mem.armed[model] = false
+		e.mem.mu.Unlock()
+		r.driftf("subscribe did not reach the membership check")
+		return false
+	}
+}
+
+func (r *vReplayer) releaseSubscribe(model int) {
+	if !r.parked[model] {
+		return
+	}
+	e := r.e
+	e.mem.mu.Lock()
+	ch := e.mem.release[model]
+	e.mem.mu.Unlock()
+	close(ch)
+	e.streams[model].waitHandled(r.subWait[model])
+	delete(r.parked, model)
+}
+
+// an account that was evicted as a non-member (and not re-admitted) must hold no subscription. The one
+// way the engine allows it is the by-design window of handleSubscribe: the membership check precedes
+// remoteMu, so a subscribe that passed the check before the removal records its interest after the eviction.
+func (r *vReplayer) noteEviction(a vAct) {
+	cfg := r.b.Cfg
+	switch a.Act {
+	case "EvictMember":
+		if !r.e.mem.isMember(a.Acct, a.Sp) {
+			r.evicted[a.Acct+"|"+a.Sp] = r.stepNo
+		}
+	case "Revalidate":
+		for _, acct := range cfg.Accounts {
+			if !r.e.mem.isMember(acct, a.Sp) {
+				r.evicted[acct+"|"+a.Sp] = r.stepNo
+			}
+		}
+	case "AddMember":
+		delete(r.evicted, a.Acct+"|"+a.Sp)
+	}
+}
+
+func (r *vReplayer) checkEvicted(a vAct, released int, v vViews) {
+	cfg := r.b.Cfg
+	for i := 0; i < cfg.NStreams; i++ {
+		acct := cfg.StreamAcct[i]
+		for k, at := range r.evicted {
+			if !strings.HasPrefix(k, acct+"|") {
+				continue
+			}
+			sp := k[len(acct)+1:]
+			var held []string
+			for _, x := range append(append([]string{}, v.Tags[i]...), v.RecPat[i]...) {
+				if strings.HasPrefix(x, sp+"|") {
+					held = append(held, x)
+				}
+			}
+			if len(held) == 0 {
+				continue
+			}
+			if released == i+1 && r.checkedAt[i+1] < at {
+				r.violate("subscribe-racing-eviction-reregisters-evicted-member", fmt.Sprintf(
+					"stream %d (account %s) passed the membership check of its subscribe to space %s at step %d, the account was removed and evicted at step %d, then the subscribe recorded its interest: the evicted non-member holds %v",
+					i+1, acct, sp, r.checkedAt[i+1], at, held))
+			} else {
+				r.violate("evicted-member-holds-subscription", fmt.Sprintf("account %s was evicted from space %s as a non-member (step %d) but its stream %d holds %v after %s", acct, sp, at, i+1, held, a.Act))
+			}
 		}
 	}
 }
@@ -666,14 +749,8 @@ func (r *vReplayer) compareStatus(s vStep, frames map[int][]*pubsubproto.PubSubM
 // stream (hooks in a seeded order) and require that no bookkeeping is left.
 func (r *vReplayer) nodeTeardown() {
 	e := r.e
-	if r.pendingSub != 0 {
-		m := r.pendingSub
-		e.mem.mu.Lock()
-		ch := e.mem.release[m]
-		e.mem.mu.Unlock()
-		close(ch)
-		e.streams[m].waitHandled(r.subWait[m])
-		r.pendingSub = 0
+	for m := range r.parked {
+		r.releaseSubscribe(m)
 	}
 	models := e.allModels()
 	// shuffle
